@@ -3,7 +3,7 @@
  "name": "pop_do_mkdir_internal",
  "props": ["C18"],
  "level": "P",
- "tier": "wip",
+ "tier": "quick",
  "harness": "h_do_mkdir",
  "includes": ["misc"],
  "unwind": 10,
@@ -36,7 +36,7 @@
  "name": "pop_do_symlink_internal_abs",
  "props": ["C18"],
  "level": "P",
- "tier": "wip",
+ "tier": "quick",
  "harness": "h_do_symlink_abs",
  "includes": ["misc"],
  "unwind": 10,
